@@ -1,7 +1,13 @@
 /-
   C10 — scoping: innermost-first lookup, host write-back, no leaking lambda scopes.
+  [A] the lookup / write / push / pop lemmas of one transition.  [B] `scope_balanced` and corollaries
+  (SqLemmas/ScopeLemmas.lean): along EVERY run of the machine — any length, through every builtin, host callback,
+  iteration and error path — the scopes beneath the pending lambda-call scopes are exactly the initial ones;
+  so after a run that started outside any lambda call, whenever no lambda call is pending (in particular when the
+  evaluation has finished or failed) the scope stack of every VM is exactly what it was: parameter scopes vanish.
 -/
 import Sq.Machine
+import SqLemmas.ScopeLemmas
 namespace SqProps.C10
 open Sq
 
@@ -84,5 +90,54 @@ theorem toplevel_assign_writes_host (n : Name) (vmi : Nat) (v v' : Val) (k : Lis
     (hw : writeTop h' vm.scopes n v' = some h'') :
     resume (.assignK n vmi) v k w = mkRet .none k { w with heap := h'' } := by
   simp [resume, hc, hv, hw]
+
+/-- **[B] scope_balanced**: for every configuration, every number of steps and every VM state `i`: the scope
+    stack of VM `i` minus its `popCount i k` topmost entries (one per pending lambda call on that VM) never changes -/
+theorem scope_balanced (n : Nat) (c : Cfg) (i : Nat) :
+    bal (run n c).w (run n c).k i = bal c.w c.k i := run_bal n c i
+
+/-- **[B] no leaking lambda scopes**: start anywhere no lambda call on VM `i` is pending (e.g. `initCfg`);
+    at every later moment at which none is pending — after any number of lambda calls have returned or raised,
+    in particular when the evaluation is over — VM `i` has exactly its original scope stack -/
+theorem scopes_restored (n : Nat) (c : Cfg) (i : Nat) (vm vm' : VM)
+    (h0 : popCount i c.k = 0) (h1 : popCount i (run n c).k = 0)
+    (hv : c.w.vms[i]? = some vm) (hv' : (run n c).w.vms[i]? = some vm') : vm'.scopes = vm.scopes := by
+  have := run_bal n c i
+  unfold bal at this
+  rw [hv, hv', h0, h1] at this
+  simpa using this
+
+/-- … and while lambda calls are pending, the original scopes sit exactly beneath the `popCount` call scopes:
+    the host's mapping is never removed, replaced or buried deeper than the pending calls -/
+theorem host_scope_beneath (n : Nat) (c : Cfg) (i : Nat) (vm vm' : VM)
+    (h0 : popCount i c.k = 0)
+    (hv : c.w.vms[i]? = some vm) (hv' : (run n c).w.vms[i]? = some vm') :
+    vm'.scopes.drop (popCount i (run n c).k) = vm.scopes := by
+  have := run_bal n c i
+  unfold bal at this
+  rw [hv, hv', h0] at this
+  simpa using this
+
+/-- the initial configuration of an `eval` call has no pending lambda call, and its VM's only scope is the
+    host's names mapping — so the two theorems above apply to every evaluation (non-vacuity) -/
+theorem initCfg_balanced (w : World) (bs : List Nat) (namesAddr budget : Nat) (ast : Op) (an : List (Name × Op)) :
+    popCount w.vms.length (initCfg w bs namesAddr budget ast an).k = 0 ∧
+    (initCfg w bs namesAddr budget ast an).w.vms[w.vms.length]? = some { scopes := [namesAddr], ops := 0 } := by
+  unfold initCfg
+  constructor
+  · cases an with
+    | nil => rfl
+    | cons p r => obtain ⟨n, op⟩ := p; rfl
+  · simp
+
+/-- **every evaluation ends with the host mapping as the only scope**: whatever the program, budget and number
+    of steps, once the continuation is empty the eval's VM holds `[namesAddr]` -/
+theorem eval_ends_with_host_scope_only (w : World) (bs : List Nat) (namesAddr budget : Nat) (ast : Op)
+    (an : List (Name × Op)) (n : Nat) (vm' : VM)
+    (hk : (run n (initCfg w bs namesAddr budget ast an)).k = [])
+    (hv' : (run n (initCfg w bs namesAddr budget ast an)).w.vms[w.vms.length]? = some vm') :
+    vm'.scopes = [namesAddr] := by
+  obtain ⟨h0, hv⟩ := initCfg_balanced w bs namesAddr budget ast an
+  exact scopes_restored n _ _ _ vm' h0 (by rw [hk]; rfl) hv hv'
 
 end SqProps.C10
